@@ -68,12 +68,15 @@ EXTRA_SIGS = [
     ("x6", "&mut self", [("o", "Option<u32>", "arg_opt_u32"), ("f", "f64", "arg_f64")]),
 ]
 EXTRA = [(sig, fl) for sig in EXTRA_SIGS for fl in ("global", "async")]
+# PLAIN configuration (C03: no limit / ttl / max_memory / predicates, not a Result) for every policy, sync global and
+# async: the body must run exactly once per distinct argument whatever the policy does on hits
+PLAIN = [(pol, fl) for pol in ("fifo", "lru", "lfu", "arc", "random", "tlru") for fl in ("global", "async")]
 
 
 def gen(seed, n):
     """the first 48 functions are random (seeded); then the 4 fixed ones (plain, F7 witnesses); then the systematic
     block: flavour x policy with limit + invalidate_on, and flavour x policy with max_memory + cache_if"""
-    base_n = n - len(SYSTEMATIC) - len(EXTRA)
+    base_n = n - len(SYSTEMATIC) - len(EXTRA) - len(PLAIN)
     fns = gen_random(seed, base_n)
     rng = random.Random(seed * 7 + 3)
     for k, sy in enumerate(SYSTEMATIC):
@@ -94,6 +97,11 @@ def gen(seed, n):
         fns.append(dict(i=i, real_result=False, is_async=(fl == "async"), policy="lru", limit=2, maxmem=None, ttl=None, fw=None,
                         scope=("global" if fl == "global" and k % 4 == 0 else None), sig=sig, ret=RETS[0], name=None,
                         tags=[], events=[], deps=[], cache_if=False, inv_on=False, thread_scope=False))
+    for k, (pol, fl) in enumerate(PLAIN):
+        i = base_n + len(SYSTEMATIC) + len(EXTRA) + k
+        fns.append(dict(i=i, real_result=False, is_async=(fl == "async"), policy=pol, limit=None, maxmem=None, ttl=None, fw=None,
+                        scope=None, sig=SIGS[1 + k % 2], ret=RETS[k % 3], name=None, tags=([TAGS[0]] if k % 4 == 1 else []), events=[], deps=[],
+                        cache_if=False, inv_on=False, thread_scope=False))
     return fns
 
 
